@@ -83,17 +83,25 @@ func c03GetKeys(backendName, circuit string) *c03Keys {
 	}
 	v.ccs, v.err = compileNamed(circuit, builder)
 	if v.err != nil {
+		v.err = fmt.Errorf("compile: %w", v.err)
 		return v
 	}
-	if backendName == "groth16" {
-		v.g16pk, v.g16vk, v.err = groth16.Setup(v.ccs)
-	} else {
-		srs, srsL, err := unsafekzg.NewSRS(v.ccs, unsafekzg.WithToxicValue(big.NewInt(99991)))
-		if err != nil {
-			v.err = err
-			return v
+	pan, msg := common.Safely(func() {
+		if backendName == "groth16" {
+			v.g16pk, v.g16vk, v.err = groth16.Setup(v.ccs)
+		} else {
+			srs, srsL, err := unsafekzg.NewSRS(v.ccs, unsafekzg.WithToxicValue(big.NewInt(99991)))
+			if err != nil {
+				v.err = fmt.Errorf("compile: srs: %w", err)
+				return
+			}
+			v.plpk, v.plvk, v.err = plonk.Setup(v.ccs, srs, srsL)
 		}
-		v.plpk, v.plvk, v.err = plonk.Setup(v.ccs, srs, srsL)
+	})
+	if pan {
+		v.err = fmt.Errorf("setup-panic: %s", msg)
+	} else if v.err != nil && !strings.HasPrefix(v.err.Error(), "compile:") {
+		v.err = fmt.Errorf("setup: %w", v.err)
 	}
 	return v
 }
@@ -147,10 +155,8 @@ func proverGoroutines() int {
 	n := runtime.Stack(buf, true)
 	cnt := 0
 	for _, g := range strings.Split(string(buf[:n]), "\n\n") {
-		if strings.Contains(g, "gnark/backend/plonk/") || strings.Contains(g, "gnark/backend/groth16/") {
-			if !strings.Contains(g, "verifharness") {
-				cnt++
-			}
+		if strings.Contains(g, "consensys/gnark/") && !strings.Contains(g, "verifharness") {
+			cnt++
 		}
 	}
 	return cnt
@@ -166,6 +172,9 @@ func c03Run(b *C03Beh) C03Res {
 	keys := c03GetKeys(cfg.Backend, cfg.Circuit)
 	if keys.err != nil {
 		res.Outcome, res.Err = "setup-error", keys.err.Error()
+		if !strings.HasPrefix(res.Err, "compile:") {
+			res.Outcome = "setup-failed" // Setup of a circuit that compiles must succeed
+		}
 		return res
 	}
 	assign, ok := c03Assignment(cfg.Circuit, cfg.Witness)
@@ -181,11 +190,17 @@ func c03Run(b *C03Beh) C03Res {
 	pub, _ := full.Public()
 	var popts []backend.ProverOption
 	var vopts []backend.VerifierOption
-	if hashOpt(cfg.PHtf) {
+	switch cfg.PHtf {
+	case "sha256":
 		popts = append(popts, backend.WithProverHashToFieldFunction(sha256.New()))
+	case "sha512":
+		popts = append(popts, backend.WithProverHashToFieldFunction(sha512.New()))
 	}
-	if hashOpt(cfg.VHtf) {
+	switch cfg.VHtf {
+	case "sha256":
 		vopts = append(vopts, backend.WithVerifierHashToFieldFunction(sha256.New()))
+	case "sha512":
+		vopts = append(vopts, backend.WithVerifierHashToFieldFunction(sha512.New()))
 	}
 	if cfg.Backend == "plonk" {
 		if hashOpt(cfg.PChal) {
@@ -306,10 +321,10 @@ func c03Replay(args common.Args, out *common.Out) error {
 
 func leakSummary(st string) string {
 	for _, g := range strings.Split(st, "\n\n") {
-		if (strings.Contains(g, "gnark/backend/plonk/") || strings.Contains(g, "gnark/backend/groth16/")) && !strings.Contains(g, "verifharness") {
+		if strings.Contains(g, "consensys/gnark/") && !strings.Contains(g, "verifharness") {
 			lines := strings.Split(g, "\n")
 			for _, l := range lines {
-				if strings.Contains(l, "gnark/backend/") && strings.Contains(l, "(") {
+				if strings.Contains(l, "consensys/gnark/") && strings.Contains(l, "(") {
 					return strings.TrimSpace(lines[0]) + " in " + strings.TrimSpace(l)
 				}
 			}
